@@ -179,6 +179,13 @@ example : valueFast 2 (configure (lrun Loss.fresh [witnessCustom]) witnessIdenti
     ∧ valueFast 2 (configure Loss.fresh witnessCustom) [-1] = some 5      -- D9: custom weights ignored on first use
     ∧ valueGen 2 (configure Loss.fresh witnessCustom) [-1] = some 9 := by decide
 
+/-- non-vacuity of the `_partial` hypotheses: a two-dataset history that installs no weights -/
+example : NoWeights [witnessIdentity, witnessIdentity] := by
+  intro d hd
+  simp only [List.mem_cons, List.not_mem_nil, or_false, or_self] at hd
+  subst hd
+  exact Or.inl rfl
+
 /-! ## (c) algorithm object -/
 
 /-- C13.c: `_qt` is always the tomography of the last call. -/
@@ -220,6 +227,10 @@ theorem algo_reuse_refines_fresh_fails :
   have := hall [(0, ⟨true, true, false, none⟩)] (0, ⟨false, false, false, none⟩)
   revert this
   decide
+
+/-- non-vacuity: three calls asking for the same projection on the same tomography -/
+example : ∀ d ∈ [((0 : Nat), (⟨true, true, false, some 20⟩ : AlgoOpt)), (0, ⟨true, true, false, some 20⟩)],
+    projOf d.1 d.2 = projOf (0 : Nat) ⟨true, true, false, some 20⟩ := by decide
 
 /-- C13.c: a projection handed to the constructor is never replaced (the documented use of the constructor argument). -/
 theorem algo_ctor_proj_kept {QT : Type} (p : Proj QT) (q : Option QT) (h : List (QT × AlgoOpt)) :
